@@ -124,7 +124,79 @@ def obsOf (m : MState) : Args :=
     "|".intercalate (a :: (m.denoms.map fun d => toString (m.w.bankBal a d)) ++ (m.tokens.map fun t => toString (m.w.tokBal t a)))
   [("cfg", cfg), ("gov", gov), ("admin", match queryAdmin s with | .ok a => a | .error _ => "?"), ("allow", joinC allow), ("pallow", joinC pallow),
    ("channels", joinC ((queryListChannels s).map renderChanInfo))]
-    ++ chs ++ [("hold", joinC hold), ("bal", joinC bal)]
+    ++ chs ++ [("hold", joinC hold), ("bal", joinC bal),
+               ("cw2", s!"{s.versionName}@{s.version.major}.{s.version.minor}.{s.version.patch}{match s.version.pre with | some p => "-" ++ p | none => ""}")]
+
+/-! ## Re-synchronisation -/
+
+/-- `name@version` (split at the last `@`) -/
+def parseCw2 (s : String) : Option (String × Version) :=
+  match (s.splitOn "@").reverse with
+  | v :: n :: rest => some ("@".intercalate (n :: rest).reverse, parseVersion v)
+  | _ => none
+
+def parseChanInfo (e : String) : Option ChanInfo :=
+  match bar e with
+  | [id, p, c, conn] => some ⟨id, p, c, conn⟩
+  | _ => none
+
+/-- Config / admin (`cfg`, `admin`; when the queries fail — a pre-0.12 layout — the old model's `config`,
+`v1gov` stay), the allow list, the channel registry (`channels`), the per-channel books of the header's
+channels (`ch.<id>`; an unregistered channel shows `-`: its old entries stay), the cw2 item (`cw2`), the
+balances of the pool and the contract's holdings.  Kept: block, header data, `replyArgs` (written before it
+is ever read), anybody else's balances. -/
+def resyncOf (m : MState) (o : Args) : Option MState :=
+  if (o.get "uninit").isSome then some { m with inited := false } else do
+  let old := m.w.st
+  let (config, v1gov) ← (if o.str "cfg" == "?" then
+      (if m.inited then some (old.config, old.v1gov) else none)
+    else match (o.str "cfg").splitOn "/" with
+      | [t, g] => t.toNat?.map fun t => ((⟨t, optNat' g⟩ : Config), (none : Option Addr))
+      | _ => none)
+  let admin : Option Addr := if o.str "admin" == "?" || o.str "admin" == "-" then none else some (o.str "admin")
+  let allow : AMap Addr (Option Nat) := (o.list "allow").foldl (fun acc e =>
+    match bar e with
+    | [a, g] => acc.set a (optNat' g)
+    | _ => acc) []
+  let infos : Option (List ChanInfo) := if o.str "channels" == "?" then none else some ((o.list "channels").filterMap parseChanInfo)
+  let chanInfo : AMap String ChanInfo := match infos with
+    | some l => l.foldl (fun acc i => acc.set i.id i) []
+    | none => old.chanInfo
+  let channels : List String := match infos with
+    | some l => let ids := l.map (·.id); (old.channels.filter ids.contains) ++ (ids.filter fun c => !old.channels.contains c)
+    | none => old.channels
+  let chan : ChanMap := m.chans.foldl (fun (acc : ChanMap) c =>
+    match o.get s!"ch.{c}" with
+    | none => acc
+    | some "-" => acc
+    | some v =>
+      (splitList v).foldl (fun (acc : ChanMap) e =>
+        match bar e with
+        | [d, x, t] => acc.set (c, parseDenom d) ⟨x.toNat?.getD 0, t.toNat?.getD 0⟩
+        | _ => acc) (acc.filter fun e => e.1.1 != c)) old.chan
+  let (versionName, version) := match parseCw2 (o.str "cw2") with
+    | some p => p
+    | none => (old.versionName, old.version)
+  let st : State := { config, v1gov, admin, allow, channels, chanInfo, chan, replyArgs := old.replyArgs, versionName, version }
+  -- balances
+  let setIf {κ : Type} [DecidableEq κ] (mp : AMap κ Nat) (k : κ) (v : Nat) : AMap κ Nat :=
+    if (mp.get? k).getD 0 == v then mp else mp.set k v
+  let (bank, tok) := (o.list "hold").foldl (fun (acc : AMap (Addr × String) Nat × AMap (Addr × Addr) Nat) e =>
+    match bar e with
+    | [d, h] =>
+      (match parseDenom d with
+       | .native dd => (setIf acc.1 (m.w.self, dd) (h.toNat?.getD 0), acc.2)
+       | .cw20 t => if m.w.tokens.contains t then (acc.1, setIf acc.2 (t, m.w.self) (h.toNat?.getD 0)) else acc)
+    | _ => acc) (m.w.bank, m.w.tok)
+  let (bank, tok) := (o.list "bal").foldl (fun (acc : AMap (Addr × String) Nat × AMap (Addr × Addr) Nat) e =>
+    match bar e with
+    | a :: vals =>
+      let nd := m.denoms.length
+      let b := (m.denoms.zip (vals.take nd)).foldl (fun b (d, v) => setIf b (a, d) (v.toNat?.getD 0)) acc.1
+      let t := (m.tokens.zip (vals.drop nd)).foldl (fun t (tk, v) => setIf t (tk, a) (v.toNat?.getD 0)) acc.2
+      (b, t)
+    | [] => acc) (bank, tok)
+  pure { m with inited := true, w := { m.w with st, bank, tok } }
 
 def err (m : MState) (tag : String) : MState × StepResult := (m, { ok := some false, tag := tag })
 
@@ -513,5 +585,6 @@ def scen : Scen MState Mon where
   obs := obsOf
   monInit h := { chans := h.list "chans", pool := h.list "pool", denoms := h.list "denoms", tokens := h.list "tokens" }
   monitor := monitorOp
+  resync := some resyncOf
 
 end CwPlus.Driver.Ics20
